@@ -107,6 +107,10 @@ inductive UnK
   | anyValue | stddev | variance | boolAnd | boolOr | groupConcat | approxDistinct      -- more aggregates
   | lag | lead | firstValue | lastValue   -- window functions over one argument, rendered `F(x) OVER ()` = Window(this = F(x))
   | subq | exists               -- `(SELECT x FROM t)` (scalar subquery), `EXISTS (SELECT x FROM t)`
+  -- one-level containers, the element class carried through a constructor + accessor pair:
+  | structField                 -- `{'k': x}.k`         Dot(Struct(PropertyEQ(k, x)), k)
+  | arrayAggElem                -- `ARRAY_AGG(x)[1]`    Bracket(ArrayAgg(x), 1)
+  | mapElem                     -- `MAP(['k'], [x])['k']`  Bracket(Map(Array(k), Array(x)), k)
   | over | filter               -- wrappers around an aggregate: `agg OVER ()`, `agg FILTER (WHERE <boolean column>)`
   | cast (to : Ty) | tryCast (to : Ty)
   deriving DecidableEq, Repr, Inhabited
@@ -117,7 +121,7 @@ def castTargets : List Ty :=
 def UnK.all : List UnK :=
   [.neg, .not, .isNull, .length, .upper, .lower, .abs, .sqrt, .ln, .exp, .sign, .ceil, .floor, .round, .year, .month, .day,
    .extractYear, .count, .sum, .min, .max, .avg, .anyValue, .stddev, .variance, .boolAnd, .boolOr, .groupConcat,
-   .approxDistinct, .lag, .lead, .firstValue, .lastValue, .subq, .exists, .over, .filter]
+   .approxDistinct, .lag, .lead, .firstValue, .lastValue, .subq, .exists, .structField, .arrayAggElem, .mapElem, .over, .filter]
   ++ castTargets.map .cast ++ castTargets.map .tryCast
 
 inductive BinK
@@ -125,11 +129,15 @@ inductive BinK
   | coalesce | nullif | concat | greatest | least | corr
   | isDistinct | ilike           -- more predicates: `a IS DISTINCT FROM b`, `a ILIKE b`
   | arrayElem                    -- `[a, b][1]`: Bracket(Array(a, b), 1)
+  | listConcatElem               -- `LIST_CONCAT([a], [b])[1]`
+  | sliceElem                    -- `[a, b][1:2][1]`
+  | unnest2                      -- `UNNEST([a, b])` in a projection (parsed as Explode)
+  | unionCol                     -- the column of `SELECT a AS c UNION ALL SELECT b AS c`, read through a derived table
   deriving DecidableEq, Repr, Inhabited
 
 def BinK.all : List BinK :=
   [.add, .sub, .mul, .div, .intdiv, .mod, .pow, .eq, .neq, .lt, .le, .gt, .ge, .and, .or, .dpipe, .like, .coalesce, .nullif,
-   .concat, .greatest, .least, .corr, .isDistinct, .ilike, .arrayElem]
+   .concat, .greatest, .least, .corr, .isDistinct, .ilike, .arrayElem, .listConcatElem, .sliceElem, .unnest2, .unionCol]
 
 inductive TernK | caseWhen | iff
   deriving DecidableEq, Repr, Inhabited
@@ -168,7 +176,7 @@ inductive NodeC
   | year | month | day | extract | count | sum | min | max | avg | window | filter | cast | tryCast
   | anyValue | stddev | variance | logicalAnd | logicalOr | groupConcat | approxDistinct | lag | lead | firstValue | lastValue
   | subquery | exists | between | in_ | rowNumber | rank | denseRank | cumeDist | percentRank | nullSafeNeq | ilike | array
-  | bracket
+  | bracket | struct | dot | propertyEq | map | arrayAgg | arrayConcat | explode
   | add | sub | mul | div | intdiv | mod | pow | eq | neq | lt | le | gt | ge | and | or | dpipe | like | coalesce | nullif | concat
   | greatest | least | corr
   | case | if_ | literal | null | boolean | interval
@@ -197,6 +205,7 @@ inductive Meta
   | subquery                                        -- _annotate_subquery: the type of the single projection
   | arrayOf (mask : List Bool)                      -- _annotate_by_args(..., array=True): ARRAY<by-args result>
   | bracket                                         -- _annotate_bracket: the element type of an ARRAY operand
+  | annotator (method : String)                     -- calls one other annotator method with the node (struct, dot, map, explode)
   | notModelled                                     -- anything else (the translator also reports a structure change)
   deriving DecidableEq, Repr, Inhabited
 
@@ -313,29 +322,34 @@ def applyMask : List Bool → List Sm → List Sm
   | false :: m, _ :: ss => applyMask m ss
   | _, _ => []
 
-/-- the dispatch of `_annotate_expression` on the node class's metadata entry -/
-def annotNode (c : NodeC) (args : List Sm) (castTo : Ty) : Ty :=
-  match T.md c with
+/-- what an EXPRESSION_METADATA entry of shape `m` puts on a node with the given children (`isNot`: the node is exp.Not) -/
+def annotShape (m : Meta) (isNot : Bool) (args : List Sm) (castTo : Ty) : Ty :=
+  match m with
   | .returns t => t
   | .binary p => match args with
     | [l, r] => annotBinary T p l r
     | _ => .unknown
   | .unary => match args with
-    | [a] => if c = .not then .boolean else a.ty
+    | [a] => if isNot then .boolean else a.ty
     | _ => .unknown
   | .div => match args with
     | [l, r] => annotDiv T l r
     | _ => .unknown
   | .byArgs m p => byArgs T (applyMask m args) p
   | .castTo => castTo
-  | .literal => .unknown       -- literals are leaves (see `smLeaf`)
+  | .literal => .unknown       -- literals are leaves (see `sm`)
   | .extract => .int           -- part YEAR: neither TIME, DATE nor an EPOCH part
   | .subquery => match args with
     | [a] => a.ty              -- `selects[0].type` of the (already annotated) inner scope
     | _ => .unknown
   | .arrayOf _ => .unknown     -- a nested type: only its element type is modelled (see `annotBin .arrayElem`)
   | .bracket => .unknown
+  | .annotator _ => .unknown   -- container annotators: modelled through the constructor + accessor composites
   | .notModelled => .unknown
+
+/-- the dispatch of `_annotate_expression` on the node class's metadata entry -/
+def annotNode (c : NodeC) (args : List Sm) (castTo : Ty) : Ty :=
+  annotShape T (T.md c) (c == .not) args castTo
 
 def leafReturns (c : NodeC) : Ty :=
   match T.md c with
@@ -352,6 +366,7 @@ def unNode : UnK → NodeC
   | .groupConcat => .groupConcat | .approxDistinct => .approxDistinct
   | .lag => .lag | .lead => .lead | .firstValue => .firstValue | .lastValue => .lastValue
   | .subq => .subquery | .exists => .exists
+  | .structField => .dot | .arrayAggElem => .bracket | .mapElem => .bracket
   | .over => .window | .filter => .filter
   | .cast _ => .cast | .tryCast _ => .tryCast
 
@@ -375,6 +390,22 @@ def annotUn (k : UnK) (a : Sm) : Ty :=
   | .isNull => annotNode T .is [a, .of (leafReturns T .null)] .unknown     -- `a IS NULL` = Is(a, Null())
   | .cast to => annotNode T .cast [a] to
   | .tryCast to => annotNode T .tryCast [a] to
+  | .structField =>
+    -- PropertyEQ: by-args over its value; `_annotate_struct`: STRUCT<k: that type> (no struct type when it is UNKNOWN);
+    -- `_annotate_dot`: the kind of the field of that name
+    match T.md .propertyEq, T.md .struct, T.md .dot with
+    | .byArgs m p, .annotator "_annotate_struct", .annotator "_annotate_dot" => byArgs T (applyMask m [.of .unknown, a]) p
+    | _, _, _ => .unknown
+  | .arrayAggElem =>
+    match T.md .arrayAgg, T.md .bracket with
+    | .arrayOf m, .bracket => byArgs T (applyMask m [a]) false
+    | _, _ => .unknown
+  | .mapElem =>
+    -- Array(x): ARRAY<by-args [x]>; `_annotate_map`: MAP<key type, value element type>; `_annotate_bracket` on a Map node
+    -- whose keys contain the subscript: the type of the value node at that position
+    match T.md .array, T.md .map, T.md .bracket with
+    | .arrayOf _, .annotator "_annotate_map", .bracket => a.ty
+    | _, _, _ => .unknown
   | k =>
     if isWinFn k then annotNode T .window [.of (annotNode T (unNode k) [a] .unknown)] .unknown
     else annotNode T (unNode k) [a] .unknown
@@ -383,7 +414,8 @@ def binNode : BinK → NodeC
   | .add => .add | .sub => .sub | .mul => .mul | .div => .div | .intdiv => .intdiv | .mod => .mod | .pow => .pow | .eq => .eq
   | .neq => .neq | .lt => .lt | .le => .le | .gt => .gt | .ge => .ge | .and => .and | .or => .or | .dpipe => .dpipe
   | .like => .like | .coalesce => .coalesce | .nullif => .nullif | .concat => .concat | .greatest => .greatest
-  | .least => .least | .corr => .corr | .isDistinct => .nullSafeNeq | .ilike => .ilike | .arrayElem => .bracket
+  | .least => .least | .corr => .corr | .isDistinct => .nullSafeNeq | .ilike => .ilike | .arrayElem => .bracket | .unionCol => .subquery
+  | .listConcatElem => .bracket | .sliceElem => .bracket | .unnest2 => .explode
 
 def annotBin (k : BinK) (a b : Sm) : Ty :=
   match k with
@@ -392,6 +424,25 @@ def annotBin (k : BinK) (a b : Sm) : Ty :=
     match T.md .array, T.md .bracket with
     | .arrayOf m, .bracket => byArgs T (applyMask m [a, b]) false
     | _, _ => .unknown
+  | .sliceElem =>
+    -- a slice keeps the array's type (`_annotate_bracket`), the element access then yields its element type
+    match T.md .array, T.md .bracket with
+    | .arrayOf m, .bracket => byArgs T (applyMask m [a, b]) false
+    | _, _ => .unknown
+  | .unnest2 =>
+    -- `_annotate_explode`: the element type of its ARRAY operand
+    match T.md .array, T.md .explode with
+    | .arrayOf m, .annotator "_annotate_explode" => byArgs T (applyMask m [a, b]) false
+    | _, _ => .unknown
+  | .listConcatElem =>
+    -- ArrayConcat is typed by-args, which stops at the FIRST nested type: the first list's type wins
+    match T.md .array, T.md .arrayConcat, T.md .bracket with
+    | .arrayOf m, .byArgs [true, true] false, .bracket => byArgs T (applyMask m [a]) false
+    | _, _, _ => .unknown
+  | .unionCol =>
+    -- `_get_setop_column_types`: `_maybe_coerce(left projection type, right projection type)` (full types, literal-ness
+    -- plays no part), then coerced with NULL (identity); the scalar subquery around it takes its single projection's type
+    if T.md .subquery = .subquery then coerce T a.ty b.ty else .unknown
   | k => annotNode T (binNode k) [a, b] .unknown
 
 def pred3Node : Pred3K → NodeC
@@ -591,6 +642,7 @@ inductive Family
   | roundDouble          -- ROUND declared DOUBLE; DuckDB keeps the integer
   | corrBinary           -- CORR typed as a Binary (coerced operand type); DuckDB DOUBLE
   | intLiteralOverflow   -- an integer literal beyond HUGEINT: `_annotate_literal` says INT, DuckDB reads it as DOUBLE
+  | genericFunction      -- a disagreement of one of the generic (not individually modelled) metadata functions, see `famFn`
   deriving DecidableEq, Repr, Inhabited
 
 def Family.all : List Family :=
@@ -636,9 +688,24 @@ def isArith : BinK → Bool
   | .add | .sub | .mul | .div | .intdiv | .mod | .pow => true
   | _ => false
 
-def famBin (k : BinK) (a b : Sm) (ea eb : ETy) : Option Family :=
+/-- DuckDB's implicit-cast order between classes, as UNION uses it (NULL lowest, VARCHAR highest) -/
+def unionRank : TyClass → Nat
+  | .nullUnknown => 0 | .boolean => 1 | .integer => 2 | .decimal => 3 | .date => 4 | .timestamp => 5 | .interval => 6
+  | .text => 7
+
+/-- UNION branches: `_maybe_coerce` keeps the first branch's type across chains, DuckDB casts to the higher class: they
+    disagree exactly when the coerced type's class is below one of the branch classes in DuckDB's order -/
+def famUnion (T : Tables) (a b : Sm) : Option Family :=
+  let r := unionRank (classOf (coerce T a.ty b.ty))
+  if r < unionRank (smClass a) || r < unionRank (smClass b) then some .mixedChainBranches else none
+
+def famBin (T : Tables) (k : BinK) (a b : Sm) (ea eb : ETy) : Option Family :=
   match k with
-  | .coalesce | .greatest | .least | .arrayElem => famBranches a b
+  | .coalesce | .greatest | .least | .arrayElem | .sliceElem | .unnest2 => famBranches a b
+  | .unionCol => famUnion T a b
+  | .listConcatElem =>
+    -- the first list's element type is kept; DuckDB casts both lists to the higher class
+    if unionRank (smClass a) < unionRank (smClass b) then some .mixedChainBranches else none
   | .dpipe => if ea == .null || eb == .null then some .concatNull else none
   | .corr => if smClass a == .decimal || smClass b == .decimal then none else some .corrBinary
   | .add | .sub | .mul | .intdiv | .mod | .div =>
@@ -801,7 +868,7 @@ def WF : TExpr → Bool
     && (famUn k (sm T S a) (eng T S a)).isNone && engUn T k (eng T S a) != .error
   | .bin k a b =>
     WF a && WF b && (typedOperand T S a && typedOperand T S b)
-    && (famBin k (sm T S a) (sm T S b) (eng T S a) (eng T S b)).isNone && T.duckBin k (eng T S a) (eng T S b) != .error
+    && (famBin T k (sm T S a) (sm T S b) (eng T S a) (eng T S b)).isNone && T.duckBin k (eng T S a) (eng T S b) != .error
   | .tern k c a b =>
     WF c && WF a && WF b && (typedOperand T S c && typedOperand T S a && typedOperand T S b) && eng T S c == .boolean
     && (famTern k (sm T S a) (sm T S b)).isNone && T.duckTern k (eng T S a) (eng T S b) != .error
@@ -846,7 +913,7 @@ def unCheck : Bool :=
 
 def binCheck : Bool :=
   BinK.all.all fun k => Sm.typed.all fun a => Sm.typed.all fun b => (compat a).all fun ea => (compat b).all fun eb =>
-    T.duckBin k ea eb == .error || ((famBin k a b ea eb).isNone == Rel (.of (annotBin T k a b)) (T.duckBin k ea eb))
+    T.duckBin k ea eb == .error || ((famBin T k a b ea eb).isNone == Rel (.of (annotBin T k a b)) (T.duckBin k ea eb))
 
 /-- the condition of CASE / IF takes no part in the typing -/
 def ternCondCheck : Bool :=
@@ -913,7 +980,7 @@ def censusUn : List (Option Family) :=
     if engUn T k ea == .error then none else some (famUn k a ea)
 def censusBin : List (Option Family) :=
   BinK.all.flatMap fun k => Sm.typed.flatMap fun a => Sm.typed.flatMap fun b => (compat a).flatMap fun ea =>
-    (compat b).filterMap fun eb => if T.duckBin k ea eb == .error then none else some (famBin k a b ea eb)
+    (compat b).filterMap fun eb => if T.duckBin k ea eb == .error then none else some (famBin T k a b ea eb)
 def censusTern : List (Option Family) :=
   TernK.all.flatMap fun k => Sm.typed.flatMap fun a => Sm.typed.flatMap fun b => (compat a).flatMap fun ea =>
     (compat b).filterMap fun eb => if T.duckTern k ea eb == .error then none else some (famTern k a b)
@@ -991,6 +1058,98 @@ def knownCaches : List String := ["_visited", "_null_expressions", "_setop_colum
 def cachesOk (inv : List (String × Bool)) : Bool :=
   inv.all (fun (n, hasScope) => knownCaches.contains n && (!(scopeDependentCaches.contains n) || hasScope))
   && scopeDependentCaches.all (fun n => (inv.map (·.1)).contains n)
+
+/-! ### where annotate_types writes (for "annotation never changes the SQL that the tree generates") -/
+
+inductive WriteKind
+  | setsType    -- sets the inferred type on the node
+  | metaOnly    -- annotation metadata on the node (`nonnull`, `query_type`, `dot_parts`): not rendered
+  | freshType   -- fills in a DataType that was just built
+  | treeRewrite -- rewrites the tree itself
+  deriving DecidableEq, Repr, Inhabited
+
+/-- the audited write sites of sqlglot/optimizer/annotate_types.py: (function, target, call|assign) ↦ kind. The only tree
+    rewrite is `_restore_dot_parts` (it un-normalises the keys of dot access into JSON / MAP / VARIANT columns, by design);
+    the two known "annotation changed the SQL" findings come from type-directed GENERATION (generators/duckdb.py reads the
+    `.type` annotation left on the argument of UPPER / LOWER / BOOL_AND / BOOL_OR), not from a rewrite here. -/
+def auditedWriteSites : List ((String × String × String) × WriteKind) :=
+  [(("_set_type", "expression._type", "assign"), .setsType),
+   (("_annotate_binary", "expression.meta", "assign"), .metaOnly),
+   (("_annotate_unary", "expression.meta", "assign"), .metaOnly),
+   (("_annotate_literal", "expression.meta", "assign"), .metaOnly),
+   (("_annotate_expression", "expr.meta", "assign"), .metaOnly),
+   (("annotate_scope", "scope.expression.meta", "assign"), .metaOnly),
+   (("_restore_dot_parts", "expr.meta.pop", "call"), .metaOnly),
+   (("_annotate_map", "map_type.set", "call"), .freshType),
+   (("_annotate_to_map", "map_type.set", "call"), .freshType),
+   (("_restore_dot_parts", "identifier.set", "call"), .treeRewrite),
+   (("_restore_dot_parts", "identifier.replace", "call"), .treeRewrite)]
+
+def writeKind (s : String × String × String) : Option WriteKind := auditedWriteSites.lookup s
+
+/-- every write site found in the source is audited, and the tree-rewriting ones are exactly those of `_restore_dot_parts` -/
+def writeSitesOk (sites : List (String × String × String)) : Bool :=
+  sites.all (fun s => (writeKind s).isSome)
+  && (sites.filter fun s => writeKind s == some .treeRewrite).all (fun s => s.1 == "_restore_dot_parts")
+
+/-! ### the other EXPRESSION_METADATA entries (generic functions; table regenerated and decided in the THOROUGH tier) -/
+
+/-- the generic-function tables written into Generated/C16Fn.lean: entry `i` is one duckdb EXPRESSION_METADATA class (not among
+    the modelled node classes) instantiated with `arity` scalar arguments whose duckdb rendering parses back to the same node -/
+structure FnTables where
+  count : Nat
+  name : Nat → String
+  arity : Nat → Nat
+  shape : Nat → Meta                    -- the entry's shape (spy annotator), mask over the instantiated arguments
+  duck1 : Nat → ETy → ETy               -- A-duck for the function, arity 1
+  duck2 : Nat → ETy → ETy → ETy         -- arity 2
+
+/-- the known disagreements among the generic functions, by function name and the type the entry's shape yields. All are
+    Binary / Unary subclasses typed by the blanket `_annotate_binary` / `_annotate_unary` entries (the coerced operand type)
+    while DuckDB's function has a fixed result class: they agree only when the coerced type happens to be in that class.
+    * ArrayPosition (LIST_POSITION → INTEGER), BitwiseAnd/Or/Xor/LeftShift/RightShift/Not (→ an integer) with NULL or
+      string-literal operands; * JSONExtractScalar (`->>` → VARCHAR); * DateBin with a NULL origin (by-args over it). -/
+def famFn (name : String) (annotated : Ty) : Option Family :=
+  let c := classOf annotated
+  if (name == "ArrayPosition" || name == "BitwiseAnd" || name == "BitwiseOr" || name == "BitwiseXor"
+      || name == "BitwiseLeftShift" || name == "BitwiseRightShift" || name == "BitwiseNot") && c != .integer
+  then some .genericFunction
+  else if name == "JSONExtractScalar" && c != .text then some .genericFunction
+  else if name == "DateBin" && c == .nullUnknown then some .genericFunction
+  else none
+
+section
+variable (T : Tables) (F : FnTables)
+
+/-- the engine makes a claim in one of the property's classes -/
+def claims (e : ETy) : Bool := e != .error && e != .other
+
+/-- complete decision for the generic functions: accepted (with a result in one of the property's classes) ⇒ (agrees ⇔ not a
+    known disagreement), over every entry × typed operand summaries × compatible engine classes -/
+def fnCheck : Bool :=
+  (List.range F.count).all fun i =>
+    if F.arity i == 1 then
+      Sm.typed.all fun a => (compat a).all fun ea =>
+        let t := annotShape T (F.shape i) false [a] .unknown
+        !(claims (F.duck1 i ea)) || ((famFn (F.name i) t).isNone == Rel (.of t) (F.duck1 i ea))
+    else
+      Sm.typed.all fun a => Sm.typed.all fun b => (compat a).all fun ea => (compat b).all fun eb =>
+        let t := annotShape T (F.shape i) false [a, b] .unknown
+        !(claims (F.duck2 i ea eb)) || ((famFn (F.name i) t).isNone == Rel (.of t) (F.duck2 i ea eb))
+
+/-- (entry, operands) combinations on which the engine makes a claim: (agreeing, disagreeing) -/
+def censusFn : Nat × Nat :=
+  let l : List Bool := (List.range F.count).flatMap fun i =>
+    if F.arity i == 1 then
+      Sm.typed.flatMap fun a => (compat a).filterMap fun ea =>
+        if claims (F.duck1 i ea) then some (famFn (F.name i) (annotShape T (F.shape i) false [a] .unknown)).isNone else none
+    else
+      Sm.typed.flatMap fun a => Sm.typed.flatMap fun b => (compat a).flatMap fun ea => (compat b).filterMap fun eb =>
+        if claims (F.duck2 i ea eb) then some (famFn (F.name i) (annotShape T (F.shape i) false [a, b] .unknown)).isNone
+        else none
+  ((l.filter id).length, (l.filter (!·)).length)
+
+end
 
 /-! ### decimals' precision / scale
 
